@@ -21,6 +21,7 @@ import Hv.Patch.SpecRefine
 import Hv.Patch.Target
 import Hv.Patch.PatchFields
 import Hv.Patch.ErrorClassOps
+import Hv.Patch.Wire
 
 namespace Hv.C13
 open Hv.Patch
@@ -316,6 +317,15 @@ example : applyWithCondition good [0x81, 0xa1, 0x74, 0x91, 0x91, 0x01] [⟨.remo
     applyWithCondition good [0x81, 0xa1, 0x74, 0x90]
       [⟨.append, [0x74, 0x5b, 0x5d], [0xdc, 0x00, 0x01, 0x01]⟩, ⟨.removeVal, [0x74], [0x91, 0x01]⟩] none
       = .ok [0x81, 0xa1, 0x74, 0x90] := by decide
+
+/-- REMOVE_VAL takes the FIRST match only: `{"t":[1,2,1]}`, REMOVE_VAL t ← 1 gives `[2,1]` in the Spec and
+    in the model.  (A loop that drops every match — `[2]` — is the separate finding
+    C13-removeval-all-matches; the extractor reads the first-match shape from the syntax tree and
+    answers `unknown` for anything else.) -/
+example : Spec.refOps (.map [([0x74], .arr [.leaf [1], .leaf [2], .leaf [1]])]) [⟨.removeVal, [0x74], [1]⟩]
+      = .ok (.map [([0x74], .arr [.leaf [2], .leaf [1]])]) ∧
+    applyWithCondition good [0x81, 0xa1, 0x74, 0x93, 1, 2, 1] [⟨.removeVal, [0x74], [1]⟩] none
+      = .ok [0x81, 0xa1, 0x74, 0x92, 2, 1] := ⟨by rfl, by decide⟩
 
 /-- the Spec is executable: `{"t":[1]}`, SET x ← "y", APPEND t[] ← 2, INC t[-1] by 5 (int8 delta on a
     fixint: class mismatch is an error; uint delta works and widens per the rule) -/
@@ -724,7 +734,7 @@ theorem pfGate_ok {pc : PfCfg} {tr : Treasure} {create : Bool} {seed body : Byte
   by_cases c1 : (!create && decide (tr.content = .absent)) = true
   · rw [if_pos c1] at h; cases h
   · rw [if_neg c1] at h
-    by_cases c2 : (create && !wf (seedOf pc seed)) = true
+    by_cases c2 : (create && !seedOk pc (seedOf pc seed)) = true
     · rw [if_pos c2] at h; cases h
     · rw [if_neg c2] at h
       have hb := pfBody_ok h
@@ -734,13 +744,53 @@ theorem pfGate_ok {pc : PfCfg} {tr : Treasure} {create : Bool} {seed body : Byte
       | true => rfl
       | false => simp [habs] at c1
 
+/-- "Non-map seeds yield TYPE_MISMATCH": when the code checks it, a treasure is only ever created
+    from a msgpack map (the given seed, or the default one) -/
+theorem pfGate_created_map {pc : PfCfg} (hsm : pc.seedMustBeMap = true) {tr : Treasure} {create : Bool}
+    {seed body : Bytes} (h : pfGate pc tr create seed = .ok (body, true)) : isMapBody body = true := by
+  have hc := (pfGate_ok h).2.1 rfl
+  have habs := (pfGate_ok h).2.2.mp rfl
+  unfold pfGate at h
+  by_cases c1 : (!create && decide (tr.content = .absent)) = true
+  · rw [if_pos c1] at h; cases h
+  · rw [if_neg c1] at h
+    by_cases c2 : (create && !seedOk pc (seedOf pc seed)) = true
+    · rw [if_pos c2] at h; cases h
+    · rw [if_neg c2] at h
+      unfold pfBody at h
+      rw [habs] at h
+      simp only [Except.ok.injEq, Prod.mk.injEq] at h
+      rw [← h.1]
+      simp [hc, seedOk, hsm] at c2
+      exact c2.2
+
+/-- the unchecked seed: `PatchFields(key, no ops, CreateIfNotExist, seed = 0x01)` on a missing key
+    reports CREATED and stores the integer 1 as the treasure's body -/
+theorem witness_nonmap_seed (pc : PfCfg) (hsm : pc.seedMustBeMap = false) :
+    (patchFieldsT pc Treasure.empty [] none true [0x01] none).status = 1 ∧
+    pfGate pc Treasure.empty true [0x01] = .ok ([0x01], true) ∧ isMapBody [0x01] = false := by
+  have hg : pfGate pc Treasure.empty true [0x01] = .ok ([0x01], true) := by
+    simp [pfGate, seedOk, hsm, seedOf, pfBody, Treasure.empty]
+    decide
+  refine ⟨?_, hg, by decide⟩
+  unfold patchFieldsT
+  rw [hg]
+  have : applyWithCondition pc.cfg [0x01] [] none = .ok [0x01] := by
+    unfold applyWithCondition
+    have hp : parse [0x01] = .ok (.leaf [0x01]) := by rfl
+    rw [hp]
+    simp [applyOps]
+    rfl
+  simp only [this]
+  rfl
+
 theorem pfGate_err {pc : PfCfg} {tr : Treasure} {create : Bool} {seed : Bytes} {s : Nat}
     (h : pfGate pc tr create seed = .error s) : s = 2 ∨ s = 5 ∨ s = 7 := by
   unfold pfGate at h
   by_cases c1 : (!create && decide (tr.content = .absent)) = true
   · rw [if_pos c1] at h; injection h with h; exact Or.inl h.symm
   · rw [if_neg c1] at h
-    by_cases c2 : (create && !wf (seedOf pc seed)) = true
+    by_cases c2 : (create && !seedOk pc (seedOf pc seed)) = true
     · rw [if_pos c2] at h; injection h with h; exact Or.inr (Or.inl h.symm)
     · rw [if_neg c2] at h; exact Or.inr (pfBody_err h)
 
@@ -812,7 +862,7 @@ theorem patchFields_refines (pc : PfCfg) (hv : pc.cfg.validatesValues = true) (h
         rw [ha] at h2; cases h2
 
 /-- non-vacuity: create with a seed, INC, and meta -/
-example : patchFieldsT ⟨good, ⟨0xc7, 0x00⟩, documentedMap, [0x80]⟩ Treasure.empty
+example : patchFieldsT ⟨good, ⟨0xc7, 0x00⟩, documentedMap, [0x80], true⟩ Treasure.empty
       [⟨.inc, [0x78], [0x02]⟩] none true [0x81, 0xa1, 0x78, 0x01]
       (some ⟨true, [0x62], true, [], some 1900000000000000000, false⟩)
     = ⟨1, ⟨.bytes [0xc7, 0x00, 0x81, 0xa1, 0x78, 0xcf, 0, 0, 0, 0, 0, 0, 0, 3], 1900000000000000000, true, [0x62], true, []⟩,
@@ -846,6 +896,15 @@ structure Facts where
   stMsgpack : Option Nat
   stNonstr : Option Nat
   seedDefault : Option Nat
+  /-- Go const blocks of `OpKind` / `CondOp` in iota order; the proto enums by number (hydraide.pb.go);
+      how gateway_patch.go converts the wire number -/
+  opOrder : Option (List OpKind)
+  condOrder : Option (List CondOp)
+  protoOps : Option (List OpKind)
+  protoConds : Option (List CondOp)
+  wireConv : WireConv
+  /-- does `PatchFields` reject a CreateIfNotExist seed that is not a msgpack map -/
+  seedMapCheck : Tri
   deriving Repr
 
 def cfgOf (f : Facts) : Cfg :=
@@ -856,7 +915,11 @@ def smapOf (f : Facts) : StatusMap :=
   ⟨f.stCond.getD 99, f.stType.getD 99, f.stPath.getD 99, f.stOp.getD 99, f.stMsgpack.getD 99, f.stNonstr.getD 99⟩
 
 def pfOf (f : Facts) : PfCfg :=
-  ⟨cfgOf f, ⟨UInt8.ofNat (f.magic0.getD 0), UInt8.ofNat (f.magic1.getD 0)⟩, smapOf f, [UInt8.ofNat (f.seedDefault.getD 0)]⟩
+  ⟨cfgOf f, ⟨UInt8.ofNat (f.magic0.getD 0), UInt8.ofNat (f.magic1.getD 0)⟩, smapOf f, [UInt8.ofNat (f.seedDefault.getD 0)],
+   f.seedMapCheck.isYes⟩
+
+def wireOf (f : Facts) : WireCfg :=
+  ⟨f.opOrder.getD [], f.condOrder.getD [], f.protoOps.getD [], f.protoConds.getD [], f.wireConv⟩
 
 /-- the PatchFields layer: documented status mapping, and reply / stored body = Spec -/
 def PFHolds (pc : PfCfg) : Prop :=
@@ -879,24 +942,34 @@ def PFHolds (pc : PfCfg) : Prop :=
       applyWithCondition pc.cfg body ops cond = .error e →
       (patchFieldsT pc tr ops cond create seed m).status = documentedMap.of e)
 
-/-- the property on the model: the patch layer and the PatchFields layer -/
-def Full (f : Facts) : Prop := Holds (cfgOf f) ∧ PFHolds (pfOf f)
+/-- "Non-map seeds yield TYPE_MISMATCH": a treasure is only ever created from a msgpack map -/
+def SeedIsMap (pc : PfCfg) : Prop :=
+  ∀ tr create seed body, pfGate pc tr create seed = .ok (body, true) → isMapBody body = true
+
+/-- the property on the model: the patch layer, the PatchFields layer, the wire -/
+def Full (f : Facts) : Prop := Holds (cfgOf f) ∧ PFHolds (pfOf f) ∧ WireHolds (wireOf f) ∧ SeedIsMap (pfOf f)
 
 def hasUnknown (f : Facts) : Bool :=
   f.validatesValues == .unknown || f.nanCompare == .unknown || f.incFixint == .unknown ||
   f.dupKey == .unknown || f.removeValCompare == .unknown || f.magic0.isNone || f.magic1.isNone ||
   f.stCond.isNone || f.stType.isNone || f.stPath.isNone || f.stOp.isNone || f.stMsgpack.isNone ||
-  f.stNonstr.isNone || f.seedDefault.isNone
+  f.stNonstr.isNone || f.seedDefault.isNone ||
+  f.opOrder.isNone || f.condOrder.isNone || f.protoOps.isNone || f.protoConds.isNone ||
+  f.wireConv == .unknown || !(wireOf f).sized || f.seedMapCheck == .unknown
 
 def allGood (f : Facts) : Bool :=
   f.validatesValues == .yes && f.nanCompare == .neverEqual && f.removeValCompare == .canonical &&
-  smapOf f == documentedMap
+  smapOf f == documentedMap && (wireOf f).agrees && f.seedMapCheck == .yes
 
 def findings (f : Facts) : List String :=
   (if f.validatesValues == .no then ["C13-unvalidated-op-value"] else []) ++
   (if f.nanCompare == .equal then ["C13-nan-compares-equal"] else []) ++
   (if f.removeValCompare == .scalarBytes then ["C13-removeval-skips-containers"] else []) ++
-  (if smapOf f == documentedMap then [] else ["C13-status-mapping"])
+  (if smapOf f == documentedMap then [] else ["C13-status-mapping"]) ++
+  (if (wireOf f).agrees then []
+   else if f.wireConv == .cast && f.opOrder == f.protoOps && f.condOrder == f.protoConds then ["C13-wire-enum-truncated"]
+   else ["C13-wire-enum-misaligned"]) ++
+  (if f.seedMapCheck == .no then ["C13-nonmap-seed-created"] else [])
 
 def classify (f : Facts) : Verdict :=
   if hasUnknown f then .undetermined "a msgpackpatch / swamp_patch.go pattern was not recognised"
@@ -912,26 +985,52 @@ theorem classify_sound (f : Facts) : (classify f).Sound (Full f) (HoldsExcept (c
     · -- every fact has its repaired / documented value
       rename_i hg
       simp only [allGood, Bool.and_eq_true, beq_iff_eq] at hg
-      obtain ⟨⟨⟨h1, h2⟩, h3⟩, h4⟩ := hg
+      obtain ⟨⟨⟨⟨⟨h1, h2⟩, h3⟩, h4⟩, h5⟩, h6⟩ := hg
+      have hsm : (pfOf f).seedMustBeMap = true := by simp [pfOf, h6, Tri.isYes]
       have hv : (cfgOf f).validatesValues = true := by simp [cfgOf, h1, Tri.isYes]
       have hc : (cfgOf f).rmvalCanon = true := by simp [cfgOf, h3]
       have hn : (cfgOf f).nan = .neverEqual := by simp [cfgOf, h2]
-      exact ⟨holds_of_good hv hn hc, h4, fun tr ops cond create seed m =>
-        patchFields_refines (pfOf f) hv hc h4 tr ops cond create seed m⟩
+      have hwc : (wireOf f).conv ≠ .unknown := by
+        intro hx
+        apply hu
+        have : f.wireConv = .unknown := hx
+        simp [hasUnknown, this]
+      have hws : (wireOf f).sized = true := by
+        cases hsz : (wireOf f).sized with
+        | true => rfl
+        | false => exact absurd (by simp [hasUnknown, hsz]) hu
+      exact ⟨holds_of_good hv hn hc, ⟨h4, fun tr ops cond create seed m =>
+        patchFields_refines (pfOf f) hv hc h4 tr ops cond create seed m⟩, WireCfg.holds_of_agrees hwc hws h5,
+        fun _ _ _ _ h => pfGate_created_map hsm h⟩
     · rename_i hb
       refine ⟨fun hfull => ?_, holds_except _⟩
-      obtain ⟨hH, hP⟩ := hfull
-      obtain ⟨vv, nc, fx, dk, rv, m0, m1, s1, s2, s3, s4, s5, s6, sd⟩ := f
-      by_cases hs : smapOf ⟨vv, nc, fx, dk, rv, m0, m1, s1, s2, s3, s4, s5, s6, sd⟩ = documentedMap
-      · cases vv <;> cases nc <;> cases rv <;> simp [hasUnknown] at hu
-        · exact not_nanEqualNothing_of_equal true fx _ hH.2.2.1
-        · exact not_nanEqualNothing_of_equal true fx _ hH.2.2.1
-        · exact not_refinesSpec_of_scalar true .neverEqual fx hH.2.2.2.1
-        · exact hb (by simp [allGood, hs])
-        · exact not_successWf_of_unvalidated .equal fx _ hH.2.1
-        · exact not_successWf_of_unvalidated .equal fx _ hH.2.1
-        · exact not_successWf_of_unvalidated .neverEqual fx _ hH.2.1
-        · exact not_successWf_of_unvalidated .neverEqual fx _ hH.2.1
-      · exact hs hP.1
+      obtain ⟨hH, hP, hW, hS⟩ := hfull
+      cases hwa : (wireOf f).agrees with
+      | false => exact WireCfg.not_holds_of_disagree hwa hW
+      | true =>
+        obtain ⟨vv, nc, fx, dk, rv, m0, m1, s1, s2, s3, s4, s5, s6, sd, oo, co, po, pc, wc, sm⟩ := f
+        cases sm with
+        | unknown => simp [hasUnknown] at hu
+        | no =>
+          have hw := witness_nonmap_seed (pfOf ⟨vv, nc, fx, dk, rv, m0, m1, s1, s2, s3, s4, s5, s6, sd, oo, co, po, pc, wc, .no⟩) rfl
+          have := hS _ _ _ _ hw.2.1
+          rw [hw.2.2] at this; cases this
+        | yes =>
+        by_cases hs : smapOf ⟨vv, nc, fx, dk, rv, m0, m1, s1, s2, s3, s4, s5, s6, sd, oo, co, po, pc, wc, .yes⟩ = documentedMap
+        · cases vv <;> cases nc <;> cases rv <;> simp [hasUnknown] at hu
+          · exact not_nanEqualNothing_of_equal true fx _ hH.2.2.1
+          · exact not_nanEqualNothing_of_equal true fx _ hH.2.2.1
+          · exact not_refinesSpec_of_scalar true .neverEqual fx hH.2.2.2.1
+          · exact hb (by simp [allGood, hs, hwa])
+          · exact not_successWf_of_unvalidated .equal fx _ hH.2.1
+          · exact not_successWf_of_unvalidated .equal fx _ hH.2.1
+          · exact not_successWf_of_unvalidated .neverEqual fx _ hH.2.1
+          · exact not_successWf_of_unvalidated .neverEqual fx _ hH.2.1
+        · exact hs hP.1
+
+/-- the wire enums mean the documented operators (re-exported for the verdict) -/
+theorem wire_cond_agrees {w : WireCfg} (htab : w.condOrder = w.protoConds) (hconv : w.conv = .castChecked)
+    (hlen : w.protoConds.length ≤ 256) (n : Int) : w.codeCond n = w.docCond n :=
+  Hv.Patch.wire_cond_agrees htab hconv hlen n
 
 end Hv.C13
